@@ -99,6 +99,8 @@ func (s *Scanner) scanNumberFragment() string {
 			start = s.pos
 			underlineStart = s.pos
 			s.pos += size
+			// the separator itself is not part of the number text
+			start = s.pos
 			continue
 		}
 
